@@ -153,3 +153,31 @@ Definition c02_guard (h : heap) (n0 : N) (R D : nat) (rk : list (addr * nat)) (S
   wf_heapb h n0 && wf_rankb h R D rk && wf_kindsb h && Nat.leb 1 D && cfg_ok fs &&
   wtb S0 h && sboundb S0 n0 &&
   root_ok h n0 S0 d fs && forallb (fun l => root_ok h n0 S0 l (ptrify_fields fs)) layers.
+
+(* ---- a store typing read off the heap along the types (used by the
+   correspondence check to evaluate c02_guard on every shipped input; the guard
+   re-checks it, so nothing has to be proved about this computation) ---- *)
+Fixpoint infer_typing (h : heap) (t : ty) (v : hv) {struct t} : styping :=
+  match t with
+  | TStruct fs _ => match v with HStruct vs => infer_fields h fs vs | _ => [] end
+  | TPtr (TStruct fs _) =>
+      match v with
+      | HPtr (Some a) =>
+          (a, CStruct fs) :: match get_struct h a with Some vs => infer_fields h fs vs | None => [] end
+      | _ => []
+      end
+  | TPtr _ => match v with HPtr (Some a) => [(a, CCell)] | _ => [] end
+  | _ => []
+  end
+with infer_fields (h : heap) (fs : fields) (vs : list hv) {struct fs} : styping :=
+  match fs, vs with
+  | FCons n tags _ t r, v :: vs' =>
+      (if omit_field n tags || is_chan_func t then [] else infer_typing h t v) ++ infer_fields h r vs'
+  | _, _ => []
+  end.
+
+Definition infer_root (h : heap) (a : addr) (lfs : fields) : styping :=
+  (a, CStruct lfs) :: match get_struct h a with Some vs => infer_fields h lfs vs | None => [] end.
+
+Definition infer_inputs (h : heap) (fs : fields) (d : addr) (layers : list addr) : styping :=
+  infer_root h d fs ++ flat_map (fun l => infer_root h l (ptrify_fields fs)) layers.
